@@ -18,7 +18,7 @@ META["explanation"] = (
     "of stale payload-free tokens, idle workers) one imap / imap_unordered call with n<=N items yields exactly its own "
     "results, cannot deadlock, is bounded (unwinding query), and ends in a state satisfying the invariant again.")
 META["bounds"] = {"quick": {"workers": "1", "chunk_size": "1", "items_per_call": "<=1", "stale_tokens": "<=1 (imap_unordered), 0 (imap)", "stale_data_cnt": "0..3"},
-                  "thorough": {"workers": "1,2", "chunk_size": "1", "items_per_call": "<=1 all schedules; <=2 with at most 2 pre-emptions", "stale_tokens": "<=1", "stale_data_cnt": "0..3",
+                  "thorough": {"workers": "1,2", "chunk_size": "1", "items_per_call": "<=1 (all schedules)", "stale_tokens": "<=1", "stale_data_cnt": "0..3",
                                "FactoryFunctorPool": "1 worker with quota 1 + 1 spare: n<=1 for all schedules with <=3 pre-emptions; n<=2 (spare without quota) with <=2 pre-emptions"}}
 META["outside_bounds"] = list(c01.META["outside_bounds"]) + [
     "FactoryFunctorPool with max_chunks_per_worker: encoded in the thorough tier (1 worker + 1 spare, quota 1) and decided under a "
@@ -33,7 +33,8 @@ def configs(tier):
            {"kind": "pool", "kth": True, "workers": 1, "cs": 1, "nmax": 1, "api": "imap", "max_tokens": 0}]
     if tier != "quick":
         out += [{"kind": "pool", "kth": True, "workers": 1, "cs": 1, "nmax": 1, "api": "imap", "max_tokens": 1},
-                {"kind": "pool", "kth": True, "workers": 1, "cs": 1, "nmax": 2, "api": "imap", "max_tokens": 1, "context_bound": 2, "Ks": (80, 96)},
+                # (a kth-call configuration with n <= 2 was tried: its main-thread automaton exceeds the VM's 20000-edge limit - two
+                # items x symbolic stale counters x token positions - so the inductive step is claimed for n <= 1 only)
                 {"kind": "pool", "kth": True, "workers": 2, "cs": 1, "nmax": 1, "api": "imap", "max_tokens": 1},
                 {"kind": "pool", "kth": True, "workers": 1, "cs": 1, "nmax": 1, "api": "imap", "max_tokens": 1, "rq": 1},
                 # FactoryFunctorPool with a chunk quota (1 initial worker, quota 1 => the worker retires after its first chunk
